@@ -175,7 +175,7 @@ inductive Out (α : Type) where
   | ok (a : α)
   | err (cls : String)
   | panic (site : String)
-deriving Repr, BEq, Inhabited
+deriving Repr, BEq, Inhabited, DecidableEq
 
 def Out.map {α β : Type} (f : α → β) : Out α → Out β
   | .ok a => .ok (f a)
